@@ -342,8 +342,9 @@ def _in_struct_literal(toks, q):
 
 
 # std methods with a vstd specification strong enough for the contracts here (used on the receivers this code base has)
-SPECIFIED_CALLS = {"len", "is_empty", "push", "unwrap", "is_some", "is_none", "is_ok", "is_err", "as_str", "to_string", "new", "clear",
-                   "Ok", "Err", "Some", "from", "into", "clone"}
+# (probed: String::from(&str) and .into() are accepted WITHOUT a usable specification, so they are not listed)
+SPECIFIED_CALLS = {"len", "is_empty", "push", "unwrap", "is_some", "is_none", "is_ok", "is_err", "as_str", "to_string", "to_owned", "new",
+                   "clear", "clone", "cloned", "Ok", "Err", "Some"}
 
 
 def call_names(toks):
